@@ -162,6 +162,17 @@ Fixpoint set_nth (texts : list str) (i : nat) (v : str) : list str :=
   | t :: r, S k => t :: set_nth r k v
   end.
 
+(* InsertBelow: an unterminated last raw line gets its newline first *)
+Fixpoint terminate_last (texts : list str) : list str :=
+  match texts with
+  | [] => []
+  | [t] => match t with
+           | [] => [t]
+           | _ => if last t 0 =? 10 then [t] else [t ++ [10]]
+           end
+  | t :: r => t :: terminate_last r
+  end.
+
 (* Autofix.assertRealLine *)
 Definition real_line (l : lstate) : bool := 1 <=? l_lineno l.
 
@@ -209,8 +220,13 @@ Definition do_op (m : mode) (skip : bool) (f : fx) (o : op) : option fx :=
   | OInsertBelow t =>
     if negb (real_line l) then None
     else if skip then Some f
-    else Some (describe {| f_line := set_below l (l_below l ++ [t ++ [10]]); f_acts := f_acts f |}
-                        (N.of_nat (length (l_raw l)) - 1) (AInsertBelow t))
+    else
+      let l1 := match l_below l with
+                | [] => set_texts l (terminate_last (l_texts l)) (l_text l)
+                | _ => l
+                end in
+      Some (describe {| f_line := set_below l1 (l_below l1 ++ [t ++ [10]]); f_acts := f_acts f |}
+                     (N.of_nat (length (l_raw l)) - 1) (AInsertBelow t))
   | ODelete =>
     if negb (real_line l) then None
     else if skip then Some f
